@@ -304,3 +304,18 @@ package arraylist
 //@     invariant forall j :: 0 <= j && j <= iterator.index && j < len(Seq(list)) && f(j, Seq(list)[j]) ==> 0 <= dst[j] && dst[j] < len(Seq(newList)) && src[dst[j]] == j
 //@     decreases len(Seq(list)) - iterator.index
 
+
+//@ -- Sort: in place; sortedness and the permutation come from the assumed contract of slices.SortFunc (A-STD): the
+//@ -- list's own obligations are that nothing but the elements changes and that lists shorter than 2 are left alone
+//@ func List.Sort
+//@   requires Inv(list) && comparator != nil
+//@   modifies elems(list.elements)
+//@   ghostvar sortperm := idmap
+//@   ghostvar sortinv := idmap
+//@   ghostresult sortperm mapint
+//@   ghostresult sortinv mapint
+//@   ensures [C03 C17] Inv(list) && len(Seq(list)) == old(len(Seq(list)))
+//@   ensures [C03] sorted: len(Seq(list)) >= 2 ==> (forall a, b :: 0 <= a && a < b && b < len(Seq(list)) ==> comparator(Seq(list)[a], Seq(list)[b]) <= 0)
+//@   ensures [C03] permutation: (forall k :: 0 <= k && k < len(Seq(list)) ==> 0 <= sortperm[k] && sortperm[k] < len(Seq(list)) && sortinv[sortperm[k]] == k && 0 <= sortinv[k] && sortinv[k] < len(Seq(list)) && sortperm[sortinv[k]] == k)
+//@     && (forall k :: 0 <= k && k < len(Seq(list)) ==> Seq(list)[k] == old(Seq(list))[sortperm[k]])
+//@   ensures [C16] Owned(list)
